@@ -921,7 +921,7 @@ def native_numbers(doc, as_float=False):
         if rep:
             rep["count"] = conv(rep["count"]) if not as_float else rep["count"]
             for k, v in list(rep["sequence"].items()):
-                if k in ("multiplier", "initial_term", "difference", "ratio"):     # the fields the schema admits numbers for
+                if k in ("multiplier", "initial_term", "difference", "ratio", "sum", "prod"):     # the fields the schema admits numbers for
                     rep["sequence"][k] = conv(v)
                     m = re.fullmatch(r"\(?(-?\d+)\s*/\s*(\d+)\)?", v) if isinstance(v, str) else None
                     if m and int(m.group(2)) in (2, 4, 8) and not as_float:
